@@ -174,6 +174,14 @@ impl SigV4Authenticator {
     pub open spec fn pre_ok(&self, region: Seq<u8>, service: Seq<u8>, now: DateTime<Utc>, d: Duration) -> bool {
         window_lo(now, d) <= self.ts() <= window_hi(now, d) && scope_ok(self.cred(), region, service, self.ts())
     }
+    /// C13 (rules 10-13 in order): which kind a refusal by prevalidation has - expiry, then not-yet-valid, then credential arity, then scope
+    pub open spec fn pre_verdict(&self, region: Seq<u8>, service: Seq<u8>, now: DateTime<Utc>, d: Duration, e: SignatureError) -> bool {
+        let inside = window_lo(now, d) <= self.ts() <= window_hi(now, d);
+        &&& (self.ts() < window_lo(now, d) ==> e is SignatureDoesNotMatch)
+        &&& (self.ts() > window_hi(now, d) ==> e is SignatureDoesNotMatch)
+        &&& (inside && split(self.cred(), 0x2f).len() != 5 ==> e is IncompleteSignature)
+        &&& (inside && split(self.cred(), 0x2f).len() == 5 ==> e is SignatureDoesNotMatch)
+    }
     /// C01: the signature a holder of `key` computes over this request
     pub open spec fn expected_sig(&self, key: Seq<u8>) -> Seq<u8> {
         str_bytes(spec_hex(spec_hmac(key, sts_bytes(self.ts(), self.cred(), self.creq_hash()))))
@@ -187,6 +195,8 @@ impl SigV4Authenticator {
     ensures
         !self.pre_ok(region.spec_bytes(), service.spec_bytes(), server_timestamp, allowed_mismatch) ==>
             r is Err && final(get_signing_key).calls() == old(get_signing_key).calls(), //# C14 C03 C04 C13 name=no_key_lookup_unless_prevalidated
+        !self.pre_ok(region.spec_bytes(), service.spec_bytes(), server_timestamp, allowed_mismatch) ==>
+            r is Err && self.pre_verdict(region.spec_bytes(), service.spec_bytes(), server_timestamp, allowed_mismatch, r->Err_0), //# C13 name=rules_10_to_13_win_over_key_lookup_and_signature
         self.pre_ok(region.spec_bytes(), service.spec_bytes(), server_timestamp, allowed_mismatch) ==>
             exists|req: GetSigningKeyRequest| {
                 &&& self.is_provider_request(region@, service@, req)
